@@ -628,6 +628,8 @@ def check(run, prog):
     rule_continuation_indent(run, prog)      # R-2.8
     from .snippet_rules import rule_operator_spacing
     rule_operator_spacing(run, prog)         # R-2.9
+    from .c02_filetype import rule_file_kind
+    rule_file_kind(run, prog)                # R-2.10
 
 
 def _ancestors(n):
